@@ -59,7 +59,11 @@ func (f *FieldUpdater) Validate(m proto.Message) error {
 // Merge copies the values in src into dst based on the configured field masks.
 func (f *FieldUpdater) Merge(dst, src proto.Message) {
 	if f.writableFields != nil && len(f.writableFields.Paths) == 0 {
-		return // nothing is writable
+		// nothing is writable, but the reset mask is not affected by the writable fields
+		if f.resetMask != nil {
+			fmutils.Prune(dst, f.resetMask.Paths)
+		}
+		return
 	}
 
 	var writableMask fmutils.NestedMask
